@@ -381,6 +381,17 @@ Fixpoint multisig_cleanup (n : nat) (c : cfg) (e : see) (fSuccess : bool) (ikey2
       else multisig_cleanup m c (popn e 1) fSuccess (if 0 <? ikey2 then ikey2 - 1 else ikey2)
   end.
 
+(* the tail of OP_CHECKMULTISIG(VERIFY): the dummy element (the famous extra stack item) and the result *)
+Definition multisig_finish (c : cfg) (e2 : see) (fSuccess : bool) (opcode : Z) : see * status :=
+  if ssize e2 <? 1 then fail e2 SCRIPT_ERR_INVALID_STACK_OPERATION
+  else if has_flag (c_flags c) SCRIPT_VERIFY_NULLDUMMY && negb (zlen (stop e2 1) =? 0)
+       then fail e2 SCRIPT_ERR_SIG_NULLDUMMY
+  else
+    let e3 := pushs (popn e2 1) (bool_vch fSuccess) in
+    if opcode =? OP_CHECKMULTISIGVERIFY then
+      if fSuccess then ok (popn e3 1) else fail e3 SCRIPT_ERR_CHECKMULTISIGVERIFY
+    else ok e3.
+
 Definition op_checkmultisig (c : cfg) (e : see) (opcode : Z) : see * status :=
   if c_sigver c =? SV_TAPSCRIPT then fail e SCRIPT_ERR_TAPSCRIPT_CHECKMULTISIG
   else if ssize e <? 1 then fail e SCRIPT_ERR_INVALID_STACK_OPERATION
@@ -418,15 +429,7 @@ Definition op_checkmultisig (c : cfg) (e : see) (opcode : Z) : see * status :=
                 match st with
                 | SOk =>
                   match multisig_cleanup (Z.to_nat (i - 1)) c e1 fSuccess ikey2 with
-                  | (e2, SOk) =>
-                    if ssize e2 <? 1 then fail e2 SCRIPT_ERR_INVALID_STACK_OPERATION
-                    else if has_flag (c_flags c) SCRIPT_VERIFY_NULLDUMMY && negb (zlen (stop e2 1) =? 0)
-                         then fail e2 SCRIPT_ERR_SIG_NULLDUMMY
-                    else
-                      let e3 := pushs (popn e2 1) (bool_vch fSuccess) in
-                      if opcode =? OP_CHECKMULTISIGVERIFY then
-                        if fSuccess then ok (popn e3 1) else fail e3 SCRIPT_ERR_CHECKMULTISIGVERIFY
-                      else ok e3
+                  | (e2, SOk) => multisig_finish c e2 fSuccess opcode
                   | r => r
                   end
                 | _ => (e1, st)
